@@ -19,6 +19,40 @@ using namespace altintegration;
 
 namespace {
 
+// ------------------------------------------------------------------ inside the library's notification points
+// "The best chain never contains an invalid block at any moment in between": handlers on onBlockValidityChanged and
+// onBeforeOverrideTip of every tree under test walk getBestChain() (const getters only, nothing is mutated) and record
+// a failed / removed block found on it; the records are reported after the operation returned.
+static std::vector<std::string>& watchLog() { static std::vector<std::string> v; return v; }
+
+template <typename Tree>
+static void watchChain(const Tree* t, const std::string& label, const char* where) {
+  for (auto* x : t->getBestChain()) {
+    if (x == nullptr) continue;
+    const char* what = x->hasFlags(BLOCK_FAILED_MASK) ? "failed" : (x->isDeleted() ? "removed" : nullptr);
+    if (what == nullptr) continue;
+    auto h = x->getHash();
+    std::string m = label + " best chain contains a " + what + " block (height " + std::to_string(x->getHeight()) + " " +
+                    vh::hex(h.data(), std::min<size_t>(h.size(), 6)) + ") inside " + where;
+    auto& log = watchLog();
+    if (log.size() < 8 && std::find(log.begin(), log.end(), m) == log.end()) log.push_back(m);
+    return;
+  }
+}
+
+template <typename Tree>
+static void hookTree(Tree& t, const std::string& label) {
+  using index_t = typename Tree::index_t;
+  const Tree* ct = &t;
+  t.onBlockValidityChanged.connect([ct, label](const index_t&) { watchChain(ct, label, "onBlockValidityChanged"); });
+  t.onBeforeOverrideTip.connect([ct, label](const index_t&) { watchChain(ct, label, "onBeforeOverrideTip"); });
+}
+
+static void flushWatch(const std::string& cid) {
+  for (auto& m : watchLog()) vh::oracle_fail(cid, "C08 " + m);
+  watchLog().clear();
+}
+
 // ------------------------------------------------------------------ generic view of a tree (public getters only)
 template <typename Tree>
 struct View {
@@ -202,6 +236,7 @@ struct Pow {
     tree.bootstrapWithGenesis(g);
     blocks["0"] = g;
     names[g.getHash().toHex()] = "0";
+    hookTree(tree, "POW");
   }
   View<tree_t> view() {
     return View<tree_t>{tree, [this](const index_t& i) {
@@ -419,21 +454,40 @@ int main() {
   TSession s;
   std::unique_ptr<AltT> alt(new AltT(s));
   std::unique_ptr<Pow> pow;
-  return vh::main_loop([&](const std::string& id, const std::string& op, const std::vector<std::string>& a) -> std::string {
-    if (op == "T") return alt->exec(id, a);
-    if (op == "P") {
-      if (!a.empty() && a[0] == "begin") { pow.reset(new Pow()); return "ok ;" + pow->view().dump(); }
-      if (!pow) return "NO-SESSION";
-      return pow->exec(id, a);
+  std::set<vw::Instance*> hooked;
+  auto hookAll = [&]() {
+    // forget instances that do not exist any more (their address may be reused later)
+    std::set<vw::Instance*> live;
+    for (auto& kv : s.inst) live.insert(kv.second.get());
+    for (auto it = hooked.begin(); it != hooked.end();) it = live.count(*it) ? std::next(it) : hooked.erase(it);
+    for (auto& kv : s.inst) {
+      if (hooked.count(kv.second.get())) continue;
+      hooked.insert(kv.second.get());
+      hookTree(kv.second->tree, "ALT[" + kv.first + "]");
+      hookTree(kv.second->tree.vbk(), "VBK[" + kv.first + "]");
+      hookTree(kv.second->tree.btc(), "BTC[" + kv.first + "]");
     }
-    std::vector<std::string> t{op};
-    t.insert(t.end(), a.begin(), a.end());
-    if (op == "begin") alt.reset(new AltT(s));
-    auto r = s.exec(t);
-    // C07: the invariant checker after EVERY step of every history, on every instance
-    if (s.reg && (op == "on" || op == "begin" || op == "twin" || op == "show" || op == "inst"))
-      for (auto& kv : s.inst)
-        for (auto& m : vw::check_invariants(*s.reg, kv.second->tree)) vh::oracle_fail(id, "C07 [" + kv.first + "] " + m);
+  };
+  return vh::main_loop([&](const std::string& id, const std::string& op, const std::vector<std::string>& a) -> std::string {
+    std::string r;
+    if (op == "T") {
+      r = alt->exec(id, a);
+    } else if (op == "P") {
+      if (!a.empty() && a[0] == "begin") { pow.reset(new Pow()); watchLog().clear(); return "ok ;" + pow->view().dump(); }
+      if (!pow) return "NO-SESSION";
+      r = pow->exec(id, a);
+    } else {
+      std::vector<std::string> t{op};
+      t.insert(t.end(), a.begin(), a.end());
+      if (op == "begin") { alt.reset(new AltT(s)); hooked.clear(); }
+      r = s.exec(t);
+      hookAll();   // instances created by this line are watched from the next line on
+      // C07: the invariant checker after EVERY step of every history, on every instance
+      if (s.reg && (op == "on" || op == "begin" || op == "twin" || op == "show" || op == "inst"))
+        for (auto& kv : s.inst)
+          for (auto& m : vw::check_invariants(*s.reg, kv.second->tree)) vh::oracle_fail(id, "C07 [" + kv.first + "] " + m);
+    }
+    flushWatch(id);
     return r;
   });
 }
